@@ -19,7 +19,7 @@ BLOCK = 40
 STREAM_ORDER = ['sched', 'preempt', 'faults', 'time', 'script', 'cfg']
 RULE = ('the real AsyncRunner and Interpreter run on real OS threads under a baton-passing scheduler: a runner thread and 1-3 client threads '
         'with drawn scripts over queue(uid), queue(uid, delay), pause, unpause, sleep, ending with stop() - in some runs a second client calls stop() as well - (or with an event that makes the '
-        'statechart final followed by wait(), after which in half of those runs another event is queued and a second runner is started on the final interpreter and must execute nothing); runner knobs (interval in {0, 1/16, 1}, execute_all) drawn per run. The seeded scheduler decides '
+        'statechart final followed by wait(), after which in half of those runs another event is queued and a second runner is started on the final interpreter and must execute nothing); in a fifth of the runs the before_run hook pauses the runner, in a quarter the other clients are already at work while start() is called; runner knobs (interval in {0, 1/16, 1}, execute_all) drawn per run. The seeded scheduler decides '
         'every context switch at fake threading/time primitives and - in the fine configuration - at LINE events inside Interpreter._queue_event '
         '/ _select_event / execute_once / _KeyifyList.__getitem__ and the AsyncRunner methods; it injects thread stalls, wall-clock jumps seen '
         'by time.time(), and sleep overshoot. History checks (events stamped with a global sequence number): executed steps (listener ground '
@@ -116,6 +116,8 @@ def run(ch, tier):
     nclients = cs.int(1, 3)
     ending = cs.weighted([('stop', 3), ('final-wait', 1)])
     second_runner = ending == 'final-wait' and cs.flag(1, 2)
+    pause_in_hook = cs.flag(1, 5)
+    early_clients = cs.flag(1, 4)      # the other clients are already at work while start() is called
     maxops = 8 if tier == 'quick' else 12
     sched = Sched(ch, fine, density=density)
     sched.queue_codes = set(QUEUE_CODES)
@@ -142,6 +144,12 @@ def run(ch, tier):
     class R(runner_mod.AsyncRunner):
         def before_run(self):
             sched.log('before_run')
+            if pause_in_hook:
+                # the usual way to start a runner paused; start() may still be in flight in the client that called it
+                sched.log('pause-inv')
+                self.pause()
+                sched.log('pause-ret')
+            hook_done[0] = True
 
         def after_run(self):
             sched.log('after_run')
@@ -169,6 +177,8 @@ def run(ch, tier):
 
     uid = [0]
     stop_invoked = [False]
+    started = [False]       # start() has returned
+    hook_done = [False]     # before_run has run (with its pause(), if any)
 
     def draw_script(main):
         ops = []
@@ -217,6 +227,8 @@ def run(ch, tier):
                     r.unpause()
                     sched.log('unpause-ret')
                 elif k == 'stop':
+                    # stopping a runner that was never started is not what the property is about
+                    sched.block(lambda: started[0], 'wait-for-start')
                     stop_invoked[0] = True
                     sched.log('stop-inv')
                     r.stop()
@@ -227,13 +239,19 @@ def run(ch, tier):
         others = []
 
         def main_client():
+            def launch_others():
+                for i in range(1, nclients):
+                    t = sched.spawn(lambda i=i: (do_ops(scripts[i]), sched.log('client-done', i)), 'client%d' % i)
+                    others.append(t)
+                    t.start_real()
+            if early_clients:
+                launch_others()
             sched.log('start-inv')
             r.start()
             sched.log('start-ret')
-            for i in range(1, nclients):
-                t = sched.spawn(lambda i=i: (do_ops(scripts[i]), sched.log('client-done', i)), 'client%d' % i)
-                others.append(t)
-                t.start_real()
+            started[0] = True
+            if not early_clients:
+                launch_others()
             do_ops(scripts[0])
             if ending == 'stop':
                 early = sc_.flag(1, 3)      # stop while the other clients are still busy
@@ -245,6 +263,8 @@ def run(ch, tier):
                 sched.log('stop-ret')
             else:
                 sched.block(lambda: all(t.state == 'done' for t in others), 'join-clients')
+                # the closing unpause() must come after the pause() of the before_run hook, or nobody ever undoes that one
+                sched.block(lambda: hook_done[0], 'wait-for-hook')
                 sched.log('unpause-inv')
                 r.unpause()
                 sched.log('unpause-ret')
@@ -289,6 +309,8 @@ def run(ch, tier):
     res.stats['fine_runs' if fine else 'coarse_runs'] += 1
     res.stats['runs_with_pending_delayed_internal_event'] += int(watchdog)
     res.stats['runs_with_a_second_runner_started_on_the_final_statechart'] += int(any(e[2] == 'start2-inv' for e in sched.events))
+    res.stats['runs_pausing_from_before_run'] += int(pause_in_hook)
+    res.stats['runs_with_clients_at_work_before_start'] += int(early_clients and nclients > 1)
     res.stats['runs_in_which_two_clients_call_stop'] += int(any(o[0] == 'stop' for sc2 in scripts for o in sc2))
     res.sim_time = sched.now - 1000.0
     H = sched.events
@@ -395,11 +417,21 @@ def check_history(H, mark, execute_all, ending):
             unp.append((stack.pop((e[1], e[2][:-4])), e[0]))
     for k_, s0 in stack.items():
         unp.append((s0, 10 ** 9))
+    # start() unpauses and launches: once the runner thread is running, the launch is over - a pause() that begins after that
+    # is not undone by a start() call that is still on its way out
+    born = [e[0] for e in sim if e[1] == 'runner']
+    if born:
+        starts = {e[0] for e in sim if e[2] == 'start-inv'}
+        unp = [(i, min(r_, born[0]) if i in starts else r_) for i, r_ in unp]
+    pause_inv = {}
     for e in sim:
+        if e[2] == 'pause-inv':
+            pause_inv[e[1]] = e[0]
         if e[2] == 'pause-ret':
             p = e[0]
-            if any(i < p < r_ for i, r_ in unp):
-                continue            # an unpause/stop was in flight when pause() returned
+            p0 = pause_inv.get(e[1], p)
+            if any(i < p and p0 < r_ for i, r_ in unp):
+                continue            # an unpause/stop/launch overlapped this pause() call
             nxt = min([i for i, r_ in unp if i > p] + [mark + 1])
             n = len([x for x in sim if x[2] == 'cycle-begin' and p < x[0] < nxt])
             if n > 1:
